@@ -32,8 +32,7 @@ if os.path.exists('seeded/MATRIX.txt'):
         if parts:
             matrix[parts[0]] = {x.split(':')[0]: int(x.split(':')[1]) for x in parts[1:]}
 # confirmed breaking changes that no check reports (see DESIGN.md 14.3): kept, with no expectation, so that the record is honest
-NOT_DETECTED = {'seeded/C12-r3-change2/patch.diff': 'interactive front end (get_v_mod1) is not analysed',
-                'seeded/C15-r3-change1/patch.diff': 'needs std::bad_alloc between two allocations: exceptions from allocation failure are not modelled'}
+NOT_DETECTED = {'seeded/C15-r3-change1/patch.diff': 'needs std::bad_alloc between two allocations: exceptions from allocation failure are not modelled'}
 json.dump(NOT_DETECTED, open('seeded/NOT_DETECTED.json', 'w'), indent=1)
 for d in sorted(glob.glob('seeded/*/patch.diff')):
     if d in NOT_DETECTED:
